@@ -317,6 +317,7 @@ def r5(ctx):
 
 def r_plumb(ctx):
     namesake_plumbing(ctx, ctx.prog, r"^(<)?dnp3::master::", 40, "plumbing")
+    arg_namesakes(ctx, ctx.prog)
 
 
 def r7(ctx):
